@@ -365,7 +365,7 @@ pub struct ExecStats {
 
 pub struct RunOut {
     /// task polled at each poll, in order (the interleaving)
-    pub poll_trace: Vec<u8>,
+    pub poll_trace: Vec<u16>,
     pub log: Vec<Ev>,
     pub ends: Vec<TaskEnd>,
     pub tstats: Vec<TaskStat>,
@@ -389,6 +389,7 @@ pub fn drive<H: Host>(scn: &Scenario, world: &Arc<World>, host: &mut H, inputs: 
         .collect();
     let mut ends: Vec<TaskEnd> = vec![TaskEnd::NotStarted; n];
     let mut live = vec![false; n];
+    let mut unstarted: Vec<usize> = (0..n).collect();
     let mut started = vec![false; n];
     let mut tstats: Vec<TaskStat> = vec![TaskStat::default(); n];
     let mut last_worker: Vec<Option<usize>> = vec![None; n];
@@ -396,7 +397,7 @@ pub fn drive<H: Host>(scn: &Scenario, world: &Arc<World>, host: &mut H, inputs: 
     let mut lost = None;
     let mut budget_exhausted = false;
     let mut last_polled: Option<usize> = None;
-    let mut poll_trace: Vec<u8> = Vec::new();
+    let mut poll_trace: Vec<u16> = Vec::new();
 
     // cancellation points by task
     let mut cancel_after: Vec<Option<u32>> = vec![None; n];
@@ -432,7 +433,9 @@ pub fn drive<H: Host>(scn: &Scenario, world: &Arc<World>, host: &mut H, inputs: 
     loop {
         // ---- start whatever may start
         let mut started_any = false;
-        let mut to_start: Vec<usize> = (0..n)
+        let mut to_start: Vec<usize> = unstarted
+            .iter()
+            .copied()
             .filter(|&t| {
                 !started[t]
                     && match scn.tasks[t].start {
@@ -444,9 +447,12 @@ pub fn drive<H: Host>(scn: &Scenario, world: &Arc<World>, host: &mut H, inputs: 
             .collect();
         if to_start.is_empty() && !live.iter().any(|l| *l) {
             // nothing alive: AtStep is only a preference
-            if let Some(t) = (0..n).find(|&t| !started[t] && matches!(scn.tasks[t].start, Start::AtStep(_))) {
+            if let Some(t) = unstarted.iter().copied().find(|&t| !started[t] && matches!(scn.tasks[t].start, Start::AtStep(_))) {
                 to_start.push(t);
             }
+        }
+        if !to_start.is_empty() {
+            unstarted.retain(|t| !to_start.contains(t));
         }
         for t in to_start {
             {
@@ -563,7 +569,7 @@ pub fn drive<H: Host>(scn: &Scenario, world: &Arc<World>, host: &mut H, inputs: 
         }
         tstats[t].polls += 1;
         stats.polls += 1;
-        poll_trace.push(t as u8);
+        poll_trace.push(t as u16);
         world.set_current(Some((t, scn.tasks[t].tag)));
         let out = host.poll(t, worker, &wakers[t]);
         world.set_current(None);
